@@ -85,7 +85,13 @@ namespace fastscapelib
 
             const auto elevation_flat = xt::flatten(elevation);
 
-            for (size_type idx : graph_impl.base_levels())
+            // seed in increasing node index order: the iteration order of the
+            // (unordered) set of base levels depends on its insertion history
+            std::vector<size_type> base_levels(graph_impl.base_levels().begin(),
+                                               graph_impl.base_levels().end());
+            std::sort(base_levels.begin(), base_levels.end());
+
+            for (size_type idx : base_levels)
             {
                 open.emplace(pflood_node<FG, elev_t>(idx, elevation_flat(idx)));
                 closed(idx) = true;
